@@ -113,11 +113,10 @@ type Interp struct {
 	sh   *shared
 
 	globals    map[*ssa.Global]*Value
-	pristine       map[*ssa.Global]*Value // deep copy of all globals taken after initialisation
-	pristineInited map[*ssa.Package]bool
-	pristineCells  int
-	initOrder      []*ssa.Package
-	snapshots      int
+	snap      *snapshotT           // shared image of package-level state this path started from
+	touched   map[*ssa.Global]bool // globals this worker keeps a private copy of
+	building  bool
+	initOrder []*ssa.Package
 	inited     map[*ssa.Package]bool
 	skipInit   map[string]bool
 	consts     map[*ssa.Const]Value
@@ -182,6 +181,9 @@ type shared struct {
 	res     *Result
 	stop    bool
 	pcSeen  map[string]bool
+	snap      *snapshotT
+	snapshots int
+	snapCells int
 }
 
 func newInterp(prog *ssa.Program, cfg *Config, sh *shared, stubs map[string]*ssa.Function, skipInit map[string]bool) (*Interp, error) {
@@ -191,7 +193,7 @@ func newInterp(prog *ssa.Program, cfg *Config, sh *shared, stubs map[string]*ssa
 		fnNames: map[*ssa.Function]string{}, methCache: map[methKey]*ssa.Function{}, implCache: map[implKey]bool{},
 		stubs: stubs, inStub: map[string]bool{}, funcsSeen: map[*ssa.Function]int{}, skipInit: skipInit,
 		MaxSteps: cfg.MaxSteps, MaxDepth: cfg.MaxDepth, MaxAlloc: cfg.MaxAlloc, MaxIteLen: 1024,
-		MapOrderNondet: cfg.MapOrderNondet, Verbose: cfg.Verbose, LogW: os.Stderr, oneShotWins: map[string]int{},
+		MapOrderNondet: cfg.MapOrderNondet, Verbose: cfg.Verbose, LogW: os.Stderr, oneShotWins: map[string]int{}, touched: map[*ssa.Global]bool{},
 	}
 	if cfg.Concrete == nil {
 		s, err := smt.New(cfg.Solver, cfg.TimeoutMs)
@@ -794,6 +796,9 @@ func (sh *shared) done() {
 
 // runPath executes the entry function once along prefix.
 func (it *Interp) runPath(entry *ssa.Function, prefix []dec, model map[string]uint64) {
+	outcome := "ok"
+	for attempt := 0; ; attempt++ {
+	outcome = "ok"
 	it.setModel(model)
 	it.beginPathGlobals()
 	it.pc = it.pc[:0]
@@ -813,7 +818,6 @@ func (it *Interp) runPath(entry *ssa.Function, prefix []dec, model map[string]ui
 	it.assertsOK = 0
 	it.sched = nil
 	it.syncMaps = nil
-	outcome := "ok"
 	func() {
 		defer func() {
 			r := recover()
@@ -853,6 +857,8 @@ func (it *Interp) runPath(entry *ssa.Function, prefix []dec, model map[string]ui
 					}
 				}
 				it.fail(Failure{Kind: "panic", Msg: msg, Inputs: ins, Stack: e.stack, PathLen: len(it.trace)})
+			case retryPath:
+				outcome = "retry"
 			case killed:
 				panic(r)
 			default:
@@ -868,6 +874,22 @@ func (it *Interp) runPath(entry *ssa.Function, prefix []dec, model map[string]ui
 		}()
 		it.callSSA(entry, nil, nil)
 	}()
+	if outcome != "retry" {
+		break
+	}
+	// continue from the decisions already taken: their alternatives are in the work queue already
+	if os.Getenv("GOSMT_DEBUG_RETRY") != "" {
+		fmt.Fprintf(os.Stderr, "retry attempt=%d prefix=%d trace=%d touched=%d\n", attempt, len(prefix), len(it.trace), len(it.touched))
+	}
+	if len(it.trace) > len(prefix) {
+		prefix = append([]dec(nil), it.trace...)
+		model = nil
+	}
+	if attempt > 5000 {
+		panic("runPath: too many retries for private copies of globals")
+	}
+	it.killAll()
+	}
 	it.killAll()
 	it.endPathGlobals()
 	res := it.sh.res
